@@ -369,16 +369,44 @@ func cfgCorpus() []*Prog {
 			add(ret())
 		}),
 		mk("two jumps to the following label in one function", func(add func(ir.Node)) {
-			add(nop()); add(br("JMP", "a", false)); add(ir.Label("a")); add(nop()); add(br("JNE", "done", true)); add(nop()); add(br("JMP", "done", false)); add(ir.Label("done")); add(ret())
+			add(nop())
+			add(br("JMP", "a", false))
+			add(ir.Label("a"))
+			add(nop())
+			add(br("JNE", "done", true))
+			add(nop())
+			add(br("JMP", "done", false))
+			add(ir.Label("done"))
+			add(ret())
 		}),
 		mk("two unreferenced labels in one function", func(add func(ir.Node)) {
-			add(ir.Label("u1")); add(nop()); add(ir.Label("loop")); add(nop()); add(ir.Label("u2")); add(nop()); add(br("JNE", "loop", true)); add(ret())
+			add(ir.Label("u1"))
+			add(nop())
+			add(ir.Label("loop"))
+			add(nop())
+			add(ir.Label("u2"))
+			add(nop())
+			add(br("JNE", "loop", true))
+			add(ret())
 		}),
 		mk("labels named like Go keywords", func(add func(ir.Node)) {
-			add(nop()); add(br("JNE", "return", true)); add(nop()); add(ir.Label("default")); add(nop()); add(br("JMP", "default", false)); add(ir.Label("return")); add(ret())
+			add(nop())
+			add(br("JNE", "return", true))
+			add(nop())
+			add(ir.Label("default"))
+			add(nop())
+			add(br("JMP", "default", false))
+			add(ir.Label("return"))
+			add(ret())
 		}),
 		mk("labels with a package-style name and digits", func(add func(ir.Node)) {
-			add(ir.Label("loop_1")); add(nop()); add(br("JNE", "loop_1", true)); add(br("JMP", "x9", false)); add(nop()); add(ir.Label("x9")); add(ret())
+			add(ir.Label("loop_1"))
+			add(nop())
+			add(br("JNE", "loop_1", true))
+			add(br("JMP", "x9", false))
+			add(nop())
+			add(ir.Label("x9"))
+			add(ret())
 		}),
 		mk("empty function", func(add func(ir.Node)) {}),
 		mk("only a label", func(add func(ir.Node)) { add(ir.Label("a")) }),
@@ -397,6 +425,7 @@ func c09(c *Ctx) {
 		n = 6000
 	}
 	progs := cfgCorpus()
+	progs = append(progs, largeProgs("loop with", "labels")...)
 	sweep := opcodeSweep(c)
 	progs = append(progs, sweep...)
 	n += len(sweep)
